@@ -130,7 +130,7 @@ def _record(i):
                 r = EoN.fast_nonMarkov_SIR(G, trans_time_fxn=tt, rec_time_fxn=rt, return_full_data=True, **kw)
             obs = simruns.observe_full(r, G)
             tr = _trace(obs["hist"], obs["trans"], obs["tree"], s["n"], s["adj"], "SIR", False, event_scn.fl(s["tmin"]),
-                        [["I", "R"]], [["I", "S", "I"]], req=s["init"])
+                        [["I", "R"]], [["I", "S", "I"]], req=s["init"])      # adj is the (possibly directed) contact adjacency
             tr["sim"] = "fast_nonMarkov_SIR(ties, %s rules)" % ("joint" if joint else "separate")
             return tr
         # generic model
